@@ -1,9 +1,72 @@
-import SwayVerif.Driver.Util
-/-! Driver for C09 (stub — replace `answer`; keep `run`). -/
+import SwayVerif.Driver.AbiSexp
+/-!
+Driver for C09. Cases (see harness/src/bin/sv_c09.rs):
+  `enc <ty> <val> ;; bytes=<hex> slow=<hex> mem=<hex> trivE= trivD= memEq= abi <ty from the JSON ABI>`
+  `dec <canon|trail|badbool|badtag> <ty> <hex> ;; ok <hex> | revert`
+(prefixes `enc-trivialenum` / `dec-trivialenum` = known-finding stream).
+agree: the implementation model (`implEncode` / `implDecode`, fast paths included) predicts the real bytes and the
+JSON-derived type is the generated type. prop: the logged bytes and the plain `abi_encode` bytes are the canonical
+encoding of the value at the type the JSON ABI describes; decoding canonical bytes (also with trailing bytes)
+reconstructs the value (observed through its re-encoding).
+-/
 namespace SwayVerif.Driver.C09
-open SwayVerif.Driver
+open SwayVerif.Abi SwayVerif.Driver SwayVerif.Driver.AbiSexp
 
-def answer (_line : String) : String := "unimplemented agree=0 prop=0"
+def answerEnc (known : Bool) (c i : List String) : String :=
+  match parseTy c with
+  | some (t, rest) => match parseVal rest with
+    | some (v, []) =>
+      let abiToks := (i.dropWhile (· ≠ "abi")).drop 1
+      let abity := match parseTy abiToks with | some (a, []) => some a | _ => none
+      match kvOf i "bytes" >>= hexBytes?, kvOf i "slow" >>= hexBytes?, flag? i "trivE" with
+      | some bytes, some slow, some trivE =>
+        if !hasType t v then "ill-typed agree=0 prop=0" else
+        let tyToks := c.take (c.length - rest.length)
+        let abiSame := decide (abiToks = tyToks)
+        let predicted := implEncode t v
+        let agree := (predicted == bytes || (known && imageMatches (runtimeImage t v) bytes))
+          && slowEncode t v == slow && abiSame
+        let pt := abity.getD t
+        let prop := propEncode pt v bytes slow
+        let why := if known && !prop && trivialEnumPaddedVariant t v && imageMatches (runtimeImage t v) bytes
+            && slow == encode t v then " why=trivialenum-padded-variant" else ""
+        s!"{showHexBytes (encode pt v)} agree={b01 agree} prop={b01 prop} kind=enc class={className t} depth={depth t} len={lenClass bytes.length} triv={b01 trivE} abi={if abity.isSome then (if abiSame then "same" else "differs") else "underived"}{why}"
+      | _, _, _ => "bad-impl agree=0 prop=0"
+    | _ => "bad-val agree=0 prop=0"
+  | none => "bad-ty agree=0 prop=0"
+
+def answerDec (known : Bool) (c i : List String) : String :=
+  match c with
+  | kind :: rest => match parseTy rest with
+    | some (t, [h]) => match hexBytes? h, parseObs i with
+      | some bs, some obs =>
+        let model := decode t bs
+        let pred := predictDecode t bs
+        let agree := match pred, obs with
+          | some v, .ok re => implEncode t v == re || (known && imageMatches (runtimeImage t v) re)
+          | none, .revert => true
+          | _, _ => false
+        -- C09 speaks about canonical inputs only; the invalid-pattern stream belongs to C10
+        let canonical := kind == "canon" || kind == "trail"
+        let prop := if canonical then propDecode t bs obs else true
+        let why := if known && !prop && (match pred with | some v => trivialEnumPaddedVariant t (match model with | some (w, _) => w | none => v) | none => false)
+          then " why=trivialenum-padded-variant" else ""
+        let m := match model with | some (v, _) => "ok " ++ showHexBytes (encode t v) | none => "revert"
+        s!"{m} agree={b01 agree} prop={b01 prop} kind=dec-{kind} class={className t} depth={depth t} len={lenClass bs.length} valid={b01 model.isSome} trivD={b01 (isDecodeTrivial t)}{why}"
+      | _, _ => "bad-impl agree=0 prop=0"
+    | _ => "bad-ty agree=0 prop=0"
+  | [] => "bad-case agree=0 prop=0"
+
+def answer (line : String) : String :=
+  let ts := lex line
+  let c := ts.takeWhile (· ≠ ";;")
+  let i := (ts.dropWhile (· ≠ ";;")).drop 1
+  match c with
+  | "enc" :: r => answerEnc false r i
+  | "enc-trivialenum" :: r => answerEnc true r i
+  | "dec" :: r => answerDec false r i
+  | "dec-trivialenum" :: r => answerDec true r i
+  | _ => "bad-op agree=0 prop=0"
 
 def run : IO Unit := do
   lineLoop (← IO.getStdin) (← IO.getStdout) answer
